@@ -151,6 +151,14 @@ fn case1<T: Elem>(case: u64, which: u64, args: &Args, ev: &mut Ev) {
             ev.violation("C05:build-failed", "valid data set rejected", case, replay.clone());
             return;
         };
+        ev.sample(|| {
+            J::obj()
+                .set("case", case)
+                .set("strategy", strat.as_str())
+                .set("axis_first", x[0].f())
+                .set("axis_last", x[x.len() - 1].f())
+                .set("queries", J::arr(qs.iter().map(|q| J::obj().set("q", format!("{:?}", q.v)).set("class", q.class).set("expected", if in_range(&x, q.v) { "answered" } else { "OutOfBounds" })).collect::<Vec<_>>()))
+        });
         let mut mon = Mon { ev, case, strat: strat.clone(), replay: replay.clone() };
         // single-query entry points
         for q in &qs {
